@@ -56,6 +56,20 @@ def qcow2(p):
     h[0:32] = struct.pack('>4sIQIIQ', magic, version & 0xffffffff, bf_offset,
                           p.get('bf_size', 0) & 0xffffffff, p.get('cluster_bits', 16), size)
     h[72:80] = struct.pack('>Q', feat)
+    exts = p.get('exts')
+    if exts is not None and version == 3:
+        # qcow2 v3 as qemu-img writes it: header_length at 100 and a chain of header extensions (type, length, data padded
+        # to 8) ending with type 0.  0xE2792ACA backing format, 0x6803F857 feature names, 0x44415441 data file name, ...
+        h[100:104] = struct.pack('>I', 104)
+        pos = 104
+        for etype, elen in exts:
+            body = _rand_bytes(('qext', etype, elen), elen)
+            rec = struct.pack('>II', etype, elen) + body + b'\0' * (-elen % 8)
+            if pos + len(rec) + 8 > 512:
+                break
+            h[pos:pos + len(rec)] = rec
+            pos += len(rec)
+        h[pos:pos + 8] = b'\0' * 8
     data = bytes(h[:total])
     ok_sig = total >= 512 and magic == b'QFI\xfb'
     if total < 512 or not ok_sig:
@@ -64,6 +78,8 @@ def qcow2(p):
         verdict = 'reject'
     elif version == 3 and (feat & 0b100 or feat >> 4):
         verdict = 'reject'
+    elif exts and any(t == 0x44415441 for t, _l in exts):
+        verdict = 'dontcare'        # a data-file-name extension without the feature bit: qemu ignores it, refusing is defensible
     elif feat == 0 and p.get('filler_seed') is None:
         verdict = 'accept'
     elif version == 3 and feat == 0:
@@ -81,7 +97,7 @@ def qcow2(p):
         responsible.append('unknown_features')
     truth = dict(fmt='qcow2', sig=ok_sig, size=size if ok_sig else 0, lo=32, hi=512,
                  wellformed=ok_sig and total >= 512,
-                 bounds=[4, 8, 16, 24, 32, 72, 80, 104, 512], safety=verdict,
+                 bounds=[4, 8, 16, 24, 32, 72, 80, 100, 104, 108, 112, 120, 512], safety=verdict,
                  responsible=sorted(set(responsible)), complete_at=512)
     return data, truth
 
